@@ -17,13 +17,22 @@ import (
 // countStore counts Close/Drop calls per underlying store instance.
 type countStore struct {
 	kvdb.Store
-	name   string
-	id     int
-	closes int
-	drops  int
+	name      string
+	id        int
+	closes    int
+	drops     int
+	failClose bool // injected fault: the next Close releases the store but reports an I/O error
 }
 
-func (s *countStore) Close() error { s.closes++; return s.Store.Close() }
+func (s *countStore) Close() error {
+	s.closes++
+	err := s.Store.Close()
+	if s.failClose {
+		s.failClose = false
+		return ErrInjected
+	}
+	return err
+}
 func (s *countStore) Drop()        { s.drops++; s.Store.Drop() }
 
 // fullProducer is a kvdb.FullDBProducer over a simulated disk (flush protocol stubbed out).
@@ -53,8 +62,9 @@ func (p *fullProducer) Close() error                                         { r
 func RunCachedProducer(c *sim.Ctx) {
 	variant := knobInt(c, "wrapper", 0, 1) // 0 WrapAll, 1 Wrap
 	nOps := knobInt(c, "ops", 2, 40)
+	faults := knobInt(c, "close_faults", 0, 1) == 1 // fault-injecting runs are a separate configuration
 	names := []string{"a", "b", "c"}
-	c.ProbeDecl("over_close_reported", "reopen_after_last_close", "second_drop_suppressed")
+	c.ProbeDecl("over_close_reported", "reopen_after_last_close", "second_drop_suppressed", "last_close_failed_by_injection")
 
 	under := &fullProducer{d: NewDisk()}
 	var prod kvdb.DBProducer
@@ -77,7 +87,11 @@ func RunCachedProducer(c *sim.Ctx) {
 		if len(c.Trace.Ops) >= nOps {
 			return sim.Op{}, false
 		}
-		return sim.Op{K: []string{"open", "close", "drop"}[c.PickW("op", []int{5, 5, 2})], A: []int64{int64(c.Pick("name", len(names)))}}, true
+		w := []int{5, 5, 2, 0}
+		if faults {
+			w[3] = 2
+		}
+		return sim.Op{K: []string{"open", "close", "drop", "armfail"}[c.PickW("op", w)], A: []int64{int64(c.Pick("name", len(names)))}}, true
 	}
 	for {
 		op, ok := c.Next(gen)
@@ -95,6 +109,9 @@ func RunCachedProducer(c *sim.Ctx) {
 				c.Violation("cached-open", "cached-open/error", "%s: OpenDB(%s): %v", wname, name, err)
 			}
 			c.Count("opens", 1)
+			if _, herr := h.Has([]byte{1}); herr != nil {
+				c.Violation("cached-open", "cached-open/unusable", "%s: OpenDB(%s) returned a store that cannot be read: %v", wname, name, herr)
+			}
 			if cy != nil && cy.refs > 0 {
 				if h != cy.handle {
 					c.Violation("cached-open", "cached-open/different-store", "%s: OpenDB(%s) while the name is open returned a different store", wname, name)
@@ -130,8 +147,11 @@ func RunCachedProducer(c *sim.Ctx) {
 				}
 				c.Probe("over_close_reported")
 			case cy.refs == 1:
-				if err != nil {
+				if err != nil && err != ErrInjected {
 					c.Violation("cached-close", "cached-close/last-close-error", "%s: the close matching the last open of %s returned %v", wname, name, err)
+				}
+				if err == ErrInjected {
+					c.Probe("last_close_failed_by_injection")
 				}
 				if cy.inst.closes != closesBefore+1 {
 					c.Violation("cached-close", "cached-close/underlying-close-count", "%s: the last close of %s closed the underlying database %d times", wname, name, cy.inst.closes-closesBefore)
@@ -145,6 +165,11 @@ func RunCachedProducer(c *sim.Ctx) {
 					c.Violation("cached-close", "cached-close/early-underlying-close", "%s: Close of %s closed the underlying database while %d opens were outstanding", wname, name, cy.refs-1)
 				}
 				cy.refs--
+			}
+		case "armfail":
+			if cy != nil && cy.refs > 0 {
+				cy.inst.failClose = true
+				c.Count("close_faults_armed", 1)
 			}
 		case "drop":
 			if cy == nil {
